@@ -122,6 +122,12 @@ func init() {
 	})
 	regSym("net/url.QueryEscape", func(fr *frame, a []value) value { return strVal(queryEscapeTermC(fr, strArg(a[0]))) })
 
+	zzAPI["SpyHTTPClient"] = func(fr *frame, a []value) value {
+		var cell value = native{retryClientTag{}}
+		return &cell
+	}
+	zzAPI["FetchCount"] = func(fr *frame, a []value) value { return len(fr.i.m.ghost["log:http.Get"]) }
+
 	// ---- environment: the HTTP client used to fetch an OpenID Connect request_uri. There is no network in
 	// the model (nor in the sandbox of the native replays): every fetch fails.
 	reg("github.com/hashicorp/go-retryablehttp.NewClient", func(fr *frame, a []value) value {
